@@ -132,3 +132,48 @@ impl AsyncDynRepoImpl for AsyncDynTarget {
         a - b
     }
 }
+
+// ---- dynamic delegation of a trait mixing sync and async methods (async_trait) ----
+#[entrait(MixedDynImpl, delegate_by = ref)]
+#[async_trait::async_trait]
+pub trait MixedDyn {
+    fn label(&self, prefix: &str) -> String;
+    async fn total(&self, a: i32, b: i32) -> i32;
+    fn plain(&self, a: i32, b: i32) -> i32;
+}
+pub struct MixedTarget;
+#[entrait(ref)]
+#[async_trait::async_trait]
+impl MixedDynImpl for MixedTarget {
+    fn label<D>(deps: &D, prefix: &str) -> String {
+        prefix.to_string()
+    }
+    async fn total<D: Extra>(deps: &D, a: i32, b: i32) -> i32 {
+        deps.extra() + a - b
+    }
+    fn plain<D>(deps: &D, a: i32, b: i32) -> i32 {
+        a - b
+    }
+}
+#[entrait(MixedBorImpl, delegate_by = Borrow)]
+#[async_trait::async_trait]
+pub trait MixedBor {
+    fn label(&self, prefix: &str) -> String;
+    async fn total(&self, a: i32, b: i32) -> i32;
+}
+// ---- static delegation of a mixed trait (no async_trait) ----
+#[entrait(MixedStaticImpl, delegate_by = DelegateMixedStatic)]
+pub trait MixedStatic {
+    fn label(&self, prefix: &str) -> String;
+    async fn total(&self, a: i32, b: i32) -> i32;
+}
+pub struct MixedStaticTarget;
+#[entrait]
+impl MixedStaticImpl for MixedStaticTarget {
+    fn label<D>(deps: &D, prefix: &str) -> String {
+        prefix.to_string()
+    }
+    async fn total<D>(deps: &D, a: i32, b: i32) -> i32 {
+        a - b
+    }
+}
